@@ -34,6 +34,8 @@ pub enum Side {
     Source,
     Stream,
     CallerWrite,
+    /// the reader of the archives that raw copies are taken from
+    RawSrc,
 }
 
 #[derive(Serialize, Deserialize, Clone, Debug, PartialEq)]
@@ -346,6 +348,12 @@ impl Scenario for Chunking {
                 for m in 0..4u32 {
                     scheds.push(Sched { side: Side::CallerWrite, policy: Policy::Pure, bufs: vec![m] });
                 }
+                if !src_stores.is_empty() {
+                    // raw copies: the source archive's reader may split its reads as well
+                    for p in [Policy::Uniform(1), Policy::Uniform(3), Policy::Uniform(c.uniform_max.max(2)), Policy::BufLike { cap: 5 }, Policy::BufLike { cap: 512 }, Policy::Prng { seed: c.prng_seeds.first().copied().unwrap_or(1) ^ 99, short_pm: 300 }] {
+                        scheds.push(Sched { side: Side::RawSrc, policy: p, bufs: vec![] });
+                    }
+                }
             }
         }
         // sink: one short write at every call index (needs the call count of the reference execution)
@@ -397,6 +405,18 @@ impl Scenario for Chunking {
                     } else {
                         let at = img.iter().zip(image0.iter()).position(|(a, b)| a != b).unwrap_or(img.len().min(image0.len()));
                         Err(("C09/sink-chunking".into(), format!("image differs from the unfragmented run: {} vs {} bytes, first difference at {at}", img.len(), image0.len())))
+                    }
+                }
+                Side::RawSrc => {
+                    let st = shared_empty();
+                    let (_o, _sio, rio) = super::prog::exec_full(st.clone(), false, ops.as_ref().map(|v| v.as_slice()).unwrap_or(&[]), &src_stores, &Policy::Pure, &sc.policy, 0, true);
+                    io = Some(rio);
+                    let img = image_of(&st);
+                    if img == image0 {
+                        Ok(())
+                    } else {
+                        let at = img.iter().zip(image0.iter()).position(|(a, b)| a != b).unwrap_or(img.len().min(image0.len()));
+                        Err(("C09/raw-copy-source-chunking".into(), format!("image differs from the run whose raw-copy source was read unfragmented: {} vs {} bytes, first difference at {at}", img.len(), image0.len())))
                     }
                 }
                 Side::CallerWrite => {
